@@ -49,7 +49,7 @@ def lean_files(sub):
 
 def source_hash():
     h = hashlib.sha256()
-    for f in lean_files('FR') + [os.path.join(LEAN, 'Driver.lean'), os.path.join(LEAN, 'lakefile.toml')]:
+    for f in lean_files('FR') + [os.path.join(LEAN, 'Driver.lean'), os.path.join(LEAN, 'ClientDriver.lean'), os.path.join(LEAN, 'lakefile.toml')]:
         h.update(f.encode())
         h.update(open(f, 'rb').read())
     return h.hexdigest()
@@ -68,7 +68,7 @@ def ensure_build(theorems, thorough=False, log=print):
         if rc != 0:
             res['fatal'] = 'translator crashed: ' + out[-2000:]
             return res
-        rc, out = sh(['lake', 'build', 'FR', 'driver'])
+        rc, out = sh(['lake', 'build', 'FR', 'driver', 'clientdriver'])
         if rc != 0:
             res['fatal'] = 'model does not build: ' + out[-3000:]
             return res
@@ -84,7 +84,7 @@ def ensure_build(theorems, thorough=False, log=print):
         for part, status in re.findall(r"'(\w+\.lean)': '(unsupported[^']*)'", res['translator']):
             res['failed']['translator:' + part] = status
         # forbidden tokens
-        for f in lean_files('FR') + [os.path.join(LEAN, 'Driver.lean')]:
+        for f in lean_files('FR') + [os.path.join(LEAN, 'Driver.lean'), os.path.join(LEAN, 'ClientDriver.lean')]:
             for m in FORBIDDEN.finditer(strip_comments(open(f).read())):
                 res['forbidden'].append('%s: %s' % (os.path.relpath(f, LEAN), m.group(0).strip()))
         # axioms of the property theorems (cached on the source hash)
